@@ -53,6 +53,7 @@ meta["tests_pass_with_change"] = ok
 rc_mut, out_mut = run_demo("mut")
 meta["demo_with_change"] = {"exit": rc_mut, "tail": out_mut}
 sh("git checkout -- src tests", cwd=WT)
+sh("cmake --build _build 2>&1 | tail -1", cwd=WT)        # demonstrations of tool-level changes use the binaries in _build
 rc_clean, out_clean = run_demo("clean")
 meta["demo_without_change"] = {"exit": rc_clean, "tail": out_clean}
 confirmed = ok and rc_mut not in (0, None) and rc_clean == 0
